@@ -11,6 +11,15 @@ except Exception:
     pass
 
 CLAIMS = {
+ 'C01': ('pzv-scheme', 'property-based testing with an exact big-integer phase oracle (clear secret via hook H4), proptest, 4 backends',
+         'Generated layouts (N, radix, precision residues, rank 0..3, plaintext/target shapes), every secret distribution, sk / pk / seed-compressed / LWE variants: the exact phase of the fresh ciphertext is recomputed with integers and bounded coefficient-wise by the deterministic worst case of the configured truncation bound; the library decryption must equal the exact phase within one unit of the target\'s last limb.',
+         'Trusted: hook H4 (read-only accessor), the phase model. FFT64 cases are kept inside the exactness domain by construction.', 'DESIGN.md section 6 C01'),
+ 'C02': ('pzv-scheme', 'model-based testing of random straight-line programs (plaintext model of every ciphertext column as exact torus values)',
+         'Random programs (1..12 steps) of add/sub/negate/copy/rotate/(X^k-1)/shift/normalise incl. all in-place forms over a register file of GLWE ciphertexts with independent sizes, a rank-0 operand and a cross-radix register; every column of the destination is compared after every step with the operation applied to the operands\' exact values (tolerance: exactly what truncated limbs can carry / one unit for rounding shifts), plus the phase under a generated key.',
+         'Trusted: the dyadic value model. Right shifts are modelled on the unreduced value of the limb vector, as the library defines them.', 'DESIGN.md section 6 C02'),
+ 'C18': ('pzv-serde', 'fault-injection property-based testing over every ReaderFrom implementation (truncation at every byte, header-field dictionary, bit flips)',
+         'For 26 hal/core layouts: round trip (object and bytes) into receivers of equal/larger shape; every truncation point of small objects exhaustively; header fields replaced from a boundary dictionary incl. overflowing products; after every read (Ok or Err) the receiver invariant is checked through public fields, the receiver is re-serialised and every coefficient read; a panic, arithmetic overflow, inconsistent receiver or changed dimensions on Err is a violation.',
+         'The four binary-FHE key wrappers are covered by the bin-fhe binary; wrapper scalars committed before delegation are observed, not judged.', 'DESIGN.md section 6 C18'),
  # id: (engine, technique, level text, level_note, design_ref)
  'C07': ('pzv-hal', 'property-based differential testing against an exact i128 schoolbook model (proptest, 4 backends)',
          'Generated search over DFT-domain operations (transforms, transform-domain arithmetic, svp, vmp, convolution) on all four backends with digit widths constructed inside the backend exactness domain; every result is compared bit for bit with the exact negacyclic/bivariate integer product. Finds any deviation on the explored shapes/values; does not prove absence.',
@@ -55,6 +64,8 @@ m = {
  'hooks': {'guard': '--cfg poulpy_verif', 'enable': "RUSTFLAGS='--cfg poulpy_verif -C target-feature=+avx2,+fma' (set by /verif/check for every harness build)",
            'baseline_off_cmd': 'cd /repo && cargo test --workspace --no-fail-fast --offline', 'source_commits': hooks, 'add_only': True},
  'engines': [
+   {'name': 'pzv-scheme', 'path': 'harness/scheme', 'serves_properties': ['C01','C02','C03','C04','C05','C06','C19'], 'kind_free_text': 'proptest-driven binary on poulpy-core with exact phase recomputation from the clear secret'},
+   {'name': 'pzv-serde', 'path': 'harness/serde', 'serves_properties': ['C18'], 'kind_free_text': 'fault-injecting property tests over all serialisable layouts'},
    {'name': 'pzv-hal', 'path': 'harness/hal', 'serves_properties': ['C07','C08','C09','C10','C11','C12','C17'], 'kind_free_text': 'proptest-driven binary over an operation registry of the HAL, four backends, guarded buffers, exact integer/rational oracles'},
  ],
  'checks': checks,
